@@ -123,3 +123,60 @@ func c18ViewBox(c *core.Check) {
 		}
 	}
 }
+
+// c18ImplicitViewBox: a root <svg> without viewBox gets the implicit viewBox (0, 0, width, height) only when both
+// its width and its height are absolute; a percentage in either of them resolves against the very size the viewBox
+// is meant to define, and the implicit box would have a zero side.
+func c18ImplicitViewBox(c *core.Check) {
+	p := c.Prog
+	r := c.Rule("R10", "the implicit viewBox of a root svg needs both sizes: in svg.draw the rectangle built from the displayed width and height is reachable only when the width's unit and the height's unit were both found different from the percentage unit (with `||` a root `<svg width=\"100%\" height=\"50\">` gets a viewBox of zero width)", 1)
+	var fn *ssa.Function
+	for _, f := range p.FuncsOfPkg("svg") {
+		if f.Name() == "draw" && f.Signature.Recv() != nil && strings.HasSuffix(f.Signature.Recv().Type().String(), "svg.svg") {
+			fn = f
+		}
+	}
+	if fn == nil {
+		r.Anchor("svg.svg.draw")
+		return
+	}
+	var atoms []ssa.Value
+	for _, a := range core.CondAtoms(fn) {
+		bo, ok := a.(*ssa.BinOp)
+		if !ok || (bo.Op != token.NEQ && bo.Op != token.EQL) {
+			continue
+		}
+		if core.IsFieldNamed(bo.X, "U") || core.IsFieldNamed(bo.Y, "U") {
+			atoms = append(atoms, a)
+		}
+	}
+	// the allocation of the implicit rectangle: a Rectangle literal whose address is stored into the viewbox variable
+	n := 0
+	core.Instrs(fn, func(in ssa.Instruction) {
+		al, ok := in.(*ssa.Alloc)
+		if !ok || !strings.HasSuffix(al.Type().String(), "svg.Rectangle") || !al.Heap {
+			return
+		}
+		if core.InnermostLoop(fn, al.Block()) != nil {
+			return
+		}
+		n++
+		if len(atoms) < 2 {
+			r.Fail("svg.svg.draw | implicit viewBox", p.Pos(al.Pos()), fmt.Sprintf("%d test(s) of a unit against the percentage unit found, 2 expected", len(atoms)))
+			return
+		}
+		ok2, _ := core.GuardedBy(fn, al.Block(), atoms, func(m map[ssa.Value]bool) bool {
+			for a, v := range m {
+				bo := a.(*ssa.BinOp)
+				if v != (bo.Op == token.NEQ) {
+					return false
+				}
+			}
+			return true
+		})
+		r.Cond(ok2, "svg.svg.draw | implicit viewBox", p.Pos(al.Pos()), "built only when neither size is a percentage", "the implicit viewBox is built although one of the two sizes is a percentage: that side resolves to 0 and user space is scaled and translated by a box of zero width or height")
+	})
+	if n == 0 {
+		r.Anchor("svg.svg.draw: viewbox = &Rectangle{Width: w, Height: h}")
+	}
+}
